@@ -1,6 +1,7 @@
 """Drive the native engine (sanitizer build) with adversarial geometry: raw .fjm files through fjm_run.run and
 direct _fjcore.Memory call sequences.  Progress is written before each case so that a sanitizer abort can be
 attributed to the case that caused it.  argv: in.json out.json progress_file"""
+import collections
 import gc
 import json
 import os
@@ -16,7 +17,7 @@ NATIVE = load_native()
 
 from flipjump.interpreter import fjm_run  # noqa: E402
 from flipjump.interpreter.io_devices.FixedIO import FixedIO  # noqa: E402
-from flipjump.utils.exceptions import IOReadOnEOF  # noqa: E402
+from flipjump.utils.exceptions import IOReadOnEOF, BrokenIOUsed  # noqa: E402
 
 U64 = (1 << 64) - 1
 
@@ -40,6 +41,8 @@ class Dev(FixedIO):
         self.script = script      # device memory accesses performed at each IO call
         self.calls = 0
         self.log = []
+        self.fail = None
+        self.side_calls = {}
 
     def attach_memory(self, m):
         self.mem = m
@@ -61,13 +64,59 @@ class Dev(FixedIO):
                 self.log.append('exc:' + type(e).__name__)
         self.calls += 1
 
+    def _maybe_fail(self, side):
+        """fail = {'on': 'read'|'write', 'at': k, 'exc': name}: the device raises at its k-th IO call of that side"""
+        f = getattr(self, 'fail', None)
+        if f and f.get('on') == side:
+            self.side_calls[side] = self.side_calls.get(side, 0) + 1
+            if self.side_calls[side] > f.get('at', 0):
+                raise _device_exception(f.get('exc'))
+
     def read_bit(self):
         self._poke()
+        self._maybe_fail('read')
         return super().read_bit()
 
     def write_bit(self, b):
         self._poke()
+        self._maybe_fail('write')
         super().write_bit(b)
+
+
+def _device_exception(name):
+    return {'OSError': OSError('the device is gone'), 'BrokenIOUsed': BrokenIOUsed('library io error'),
+            'KeyboardInterrupt': KeyboardInterrupt()}.get(name) or RuntimeError('device failure')
+
+
+def _probe_last_ops(m):
+    """the getter protocol of Memory.last_run_last_ops: every read hands out an owned reference to a list of ints; reading,
+    dropping temporaries (what fjm_run's `last_ops.extend(core.last_run_last_ops)` does) and re-reading leaves the content
+    and the engine's own reference intact.  returns (content, problem or None)"""
+    a = m.last_run_last_ops
+    if type(a) is not list:
+        return None, {'why': 'not a list', 'type': type(a).__name__}
+    rc1 = sys.getrefcount(a)
+    b = m.last_run_last_ops
+    rc2 = sys.getrefcount(a)
+    same = a is b
+    content = list(a)
+    del b
+    rc3 = sys.getrefcount(a)
+    collections.deque(maxlen=8).extend(m.last_run_last_ops)      # a temporary reference, consumed and dropped
+    [m.last_run_last_ops for _ in range(3)]
+    c = m.last_run_last_ops
+    rc4 = sys.getrefcount(a)
+    content2 = list(c) if type(c) is list else None
+    held = 1 if (c is a) else 0
+    del c
+    problem = None
+    if not all(type(x) is int and 0 <= x < (1 << 64) for x in content):
+        problem = {'why': 'content is not a list of addresses'}
+    elif content2 != content:
+        problem = {'why': 'content changed between reads', 'first': content[:8], 'then': (content2 or [])[:8]}
+    elif (same and (rc2 != rc1 + 1 or rc3 != rc1)) or (not same and (rc2 != rc1 or rc3 != rc1)) or rc4 != rc1 + held:
+        problem = {'why': 'the getter does not hand out an owned reference', 'same_object': same, 'refcounts': [rc1, rc2, rc3, rc4]}
+    return content, problem
 
 
 def _alarm(signum, frame):
@@ -89,14 +138,26 @@ def do_file_case(c, td):
     if c.get('last_ops') is not None:
         kw['last_ops_debugging_list_length'] = c['last_ops']
     dev = Dev(bytes.fromhex(c.get('input', '')), c.get('script', {}))
+    dev.fail = c.get('dev_fail')
     signal.setitimer(signal.ITIMER_REAL, 3.0)
     try:
         st = fjm_run.run(path, io_device=dev, **kw)
-        return {'cause': int(st.termination_cause), 'ops': st.op_counter, 'fault': st.memory_error_address, 'log': dev.log[:50]}
+        res = {'cause': int(st.termination_cause), 'ops': st.op_counter, 'fault': st.memory_error_address, 'log': dev.log[:50]}
     except BaseException as e:  # noqa
-        return {'exc': type(e).__name__, 'msg': str(e)[:120]}
+        res = {'exc': type(e).__name__, 'msg': str(e)[:120], 'inner': type(e.__cause__).__name__ if e.__cause__ else None}
     finally:
         signal.setitimer(signal.ITIMER_REAL, 0)
+    core = getattr(dev.mem, '_core_memory', None)
+    if c.get('dev_fail') and core is not None:
+        # the engine object outlives the failed run through the device hook: its kept last-ops list must still be owned by it
+        content, problem = _probe_last_ops(core)
+        res['kept'] = content
+        if problem:
+            res['leaks'] = [dict(problem, name='last_run_last_ops', call='fjm_run.run')]
+        dev.mem = None
+        del core
+        gc.collect()
+    return res
 
 
 MODES = {None: 0, 'paged': 1, 'hybrid': 2, 'flat': 3}
@@ -134,7 +195,7 @@ def _make_io(spec, data):
         how = spec.get('read')
         if how and k >= at:
             if how == 'raise':
-                raise RuntimeError('device failure')
+                raise _device_exception(spec.get('exc'))
             if how == 'eof':
                 raise IOReadOnEOF('eof')
             if how == 'nonbool':
@@ -147,7 +208,7 @@ def _make_io(spec, data):
         k = state['w']
         state['w'] += 1
         if spec.get('write') == 'raise' and k >= at:
-            raise RuntimeError('device failure')
+            raise _device_exception(spec.get('exc'))
         return base_w(b)
 
     return read_bit, write_bit
@@ -198,6 +259,11 @@ def do_api_case(c):
                     signal.setitimer(signal.ITIMER_REAL, 0)
                 out.append([r[0], r[1], r[2], list(r[3])[:8]])
                 del r
+            elif name == 'last_ops_probe':
+                content, problem = _probe_last_ops(m)
+                if problem:
+                    leaks.append(dict(problem, call=ci, name='last_run_last_ops'))
+                out.append(['lastops', content])
             elif name == 'get':
                 out.append(['attr', str(getattr(m, args[0]))[:80]])
             elif name == 'set_words':
@@ -211,6 +277,10 @@ def do_api_case(c):
                 out.append(r if r is None or isinstance(r, int) else str(r)[:40])
         except BaseException as e:  # noqa
             out.append('exc:' + type(e).__name__)
+        if name == 'run' and m is not None and hasattr(m, 'last_run_last_ops'):
+            _, problem = _probe_last_ops(m)
+            if problem:
+                leaks.append(dict(problem, call=ci, name='last_run_last_ops', result=str(out[-1])[:60]))
         if watched:
             after = _refs(watched)
             if after != before:
@@ -219,6 +289,8 @@ def do_api_case(c):
             if after != before:
                 leaks.append({'call': ci, 'name': name, 'before': before, 'after': after, 'result': str(out[-1])[:60]})
         obs.append(_observe(m) if m is not None else None)
+    del m                      # the engine's dealloc runs inside the case
+    gc.collect()
     res = {'results': out, 'obs': obs}
     if leaks:
         res['leaks'] = leaks
